@@ -183,7 +183,7 @@ def recursion_cycles(F):
     top = {}
     for fn in fns:
         cur = fn
-        while cur.kind == "closure":
+        while cur.kind == "closure" and F.fn(cur.d["parent"]) is not None:
             cur = F.fn(cur.d["parent"])
         top[fn.path] = cur.path
     names = {fn.path for fn in fns if fn.kind != "closure"}
